@@ -192,6 +192,73 @@ func registerIntrinsics(x *Exec) {
 			in[n] = noop
 		}
 	}
+	// ---- pthread keys, TLS, setjmp/longjmp (single thread unless a scheduler runs) ----
+	const pPth = "github.com/goplus/llgo/runtime/internal/clite/pthread."
+	in["(*"+pPth+"Key).Create"] = func(x *Exec, fr *frame, args []Value, _ *ssa.CallCommon) Value {
+		x.keySeq++
+		x.M.Mem.Store(t(args[0]), core.TI32, smt.Const(32, uint64(x.keySeq)), &x.hooks, "pthread_key_create")
+		return smt.Const(32, 0)
+	}
+	in["("+pPth+"Key).Get"] = func(x *Exec, fr *frame, args []Value, _ *ssa.CallCommon) Value {
+		k := x.concretize(t(args[0]), "pthread key")
+		if v, ok := x.tlsCells()[k]; ok {
+			return v
+		}
+		return c64(0)
+	}
+	in["("+pPth+"Key).Set"] = func(x *Exec, fr *frame, args []Value, _ *ssa.CallCommon) Value {
+		k := x.concretize(t(args[0]), "pthread key")
+		x.tlsCells()[k] = args[1]
+		return smt.Const(32, 0)
+	}
+	in["("+pPth+"Key).Delete"] = func(x *Exec, fr *frame, args []Value, _ *ssa.CallCommon) Value { return smt.Const(32, 0) }
+	in[pPth+"Self"] = func(x *Exec, fr *frame, args []Value, _ *ssa.CallCommon) Value { return c64(uint64(x.threadID() + 1)) }
+	in[pPth+"Equal"] = func(x *Exec, fr *frame, args []Value, _ *ssa.CallCommon) Value {
+		return smt.BoolToBV(smt.Eq(t(args[0]), t(args[1])), 32)
+	}
+	in[pClite+"Calloc"] = func(x *Exec, fr *frame, args []Value, _ *ssa.CallCommon) Value {
+		n := x.upperBound(smt.Mul(t(args[0]), t(args[1])), "calloc size")
+		return x.M.Mem.Alloc(n, "calloc").Ptr()
+	}
+	in[pClite+"GoDeferData"] = func(x *Exec, fr *frame, args []Value, _ *ssa.CallCommon) Value {
+		// llgo.deferData: the current thread's defer chain head
+		f := x.P.Main.Func("GetThreadDefer")
+		if f == nil {
+			x.unsupported("GoDeferData outside the runtime package")
+		}
+		return x.call(fr, f, nil, nil)
+	}
+	in[pClite+"Siglongjmp"] = func(x *Exec, fr *frame, args []Value, _ *ssa.CallCommon) Value {
+		buf := x.concretize(t(args[0]), "jmp_buf")
+		panic(&core.LongJmp{Buf: buf, Val: t(args[1])})
+	}
+	in["github.com/goplus/llgo/runtime/internal/clite/setjmp.Siglongjmp"] = in[pClite+"Siglongjmp"]
+	in["github.com/goplus/llgo/runtime/internal/clite/time.Time"] = func(x *Exec, fr *frame, args []Value, _ *ssa.CallCommon) Value {
+		x.Stubs["time.Time -> arbitrary value"] = true
+		return x.M.Fresh("time", 64)
+	}
+	in["github.com/goplus/llgo/runtime/internal/clite/signal.Signal"] = func(x *Exec, fr *frame, args []Value, _ *ssa.CallCommon) Value {
+		x.Stubs["signal.Signal -> no effect (faults in the nil region are raised by the memory model)"] = true
+		return Agg{c64(0), c64(0)}
+	}
+	for _, n := range []string{"AddRoots", "RemoveRoots", "Init", "Enable", "Disable", "Gcollect"} {
+		in["github.com/goplus/llgo/runtime/internal/clite/bdwgc."+n] = noop
+	}
+	in[pClite+"Exit"] = func(x *Exec, fr *frame, args []Value, _ *ssa.CallCommon) Value {
+		panic(&goPanic{val: x.opaqueIface("exit"), class: "exit", msg: "process exit"})
+	}
+	in["github.com/goplus/llgo/runtime/internal/clite/bdwgc.Free"] = noop
+	in["github.com/goplus/llgo/runtime/internal/clite/debug.PrintStack"] = noop
+	in["github.com/goplus/llgo/runtime/internal/clite/debug.StackTrace"] = noop
+	in[pRT+"TracePanic"] = func(x *Exec, fr *frame, args []Value, _ *ssa.CallCommon) Value {
+		x.Stubs["runtime.TracePanic (message printing of an escaping panic) -> no effect"] = true
+		return nil
+	}
+	in[pRT+"srand"] = noop
+	in[pRT+"fastrand"] = func(x *Exec, fr *frame, args []Value, _ *ssa.CallCommon) Value {
+		x.Stubs["C.rand -> arbitrary value"] = true
+		return x.M.Fresh("rand", 32)
+	}
 	in["fmt.Errorf"] = func(x *Exec, fr *frame, args []Value, _ *ssa.CallCommon) Value {
 		x.Stubs["fmt.Errorf -> opaque non-nil error"] = true
 		return x.opaqueIface("fmt.Errorf")
